@@ -431,19 +431,26 @@ def cli_conformance(st, sym):
 
     fbody, fwant = "\n".join(flines), "\n".join(wanted(flines, frx, text, ""))  # no final newline: the last line ends the file
     gbody, gwant = "\n".join(glines) + "\n", "\n".join(wanted(glines, grx, "", gtext)) + "\n"
+    # h.txt: `v={version};` listed first, then a pattern whose literal text contains the symbol; its only occurrence stands BETWEEN two
+    # occurrences of the first pattern on one line
+    hpat = "lit" + sym + "lit {version}"
+    htext = "lit" + text + "lit"
+    hbody = f"v=1.2.3; {htext} 1.2.3 v=1.2.3;\nplain v=1.2.3;\n"
+    hwant = f"v=1.2.4; {htext} 1.2.4 v=1.2.4;\nplain v=1.2.4;\n"
     cfg = (
         "[bumpver]\ncurrent_version = \"1.2.3\"\nversion_pattern = \"MAJOR.MINOR.PATCH\"\n\n"
         "[bumpver.file_patterns]\n\"bumpver.toml\" = ['current_version = \"{version}\"']\n"
         f"\"f.txt\" = [{_toml_str(fpat)}]\n"
         f"\"g.txt\" = [{_toml_str(gpat)}]\n"
+        f"\"h.txt\" = [\"v={{version}};\", {_toml_str(hpat)}]\n"
     )
     world.clear_dir(".")
-    world.write_tree({"bumpver.toml": cfg.encode(), "f.txt": fbody.encode(), "g.txt": gbody.encode()})
+    world.write_tree({"bumpver.toml": cfg.encode(), "f.txt": fbody.encode(), "g.txt": gbody.encode(), "h.txt": hbody.encode()})
     import toml as _toml
 
     try:
         fps = _toml.loads(cfg)["bumpver"]["file_patterns"]
-        ok_cfg = fps["f.txt"] == [fpat] and fps["g.txt"] == [gpat]
+        ok_cfg = fps["f.txt"] == [fpat] and fps["g.txt"] == [gpat] and fps["h.txt"] == ["v={version};", hpat]
     except Exception:
         ok_cfg = False
     if not ok_cfg:
@@ -455,8 +462,12 @@ def cli_conformance(st, sym):
     st.evaluations += 1
     tree = world.read_tree(".")
     after, gafter = tree.get("f.txt", b"").decode("utf-8", "replace"), tree.get("g.txt", b"").decode("utf-8", "replace")
-    st.observe((sym, "update", o.exit, o.crashed, after, gafter))
-    if o.exit != 0 or after != fwant or gafter != gwant:
+    hafter = tree.get("h.txt", b"").decode("utf-8", "replace")
+    st.observe((sym, "update", o.exit, o.crashed, after, gafter, hafter))
+    if (o.exit == 0 and after == fwant and gafter == gwant and hafter != hwant) or (o.exit != 0 and hpat in o.logtext()):
+        st.violation(_cli_sig(sym, "pre"), {"syms": [sym], "ctx": "update", "cli": "update"},
+                     {"kind": "update-literal-between-two-matches", "file_patterns": ["v={version};", hpat], "exit": o.exit, "h.txt": hafter, "h.txt expected": hwant, "log": o.log[-3:]})
+    elif o.exit != 0 or after != fwant or gafter != gwant:
         which = "f.txt" if (o.exit != 0 or after != fwant) else "g.txt"
         st.violation(
             _cli_sig(sym, "pre" if which == "f.txt" else "suf"), {"syms": [sym], "ctx": "update", "cli": "update"},
